@@ -78,6 +78,13 @@ def run_check(pid, cfg, tier, seed, work, t0):
                 discharged += 1
             else:
                 breaks.append(("axiom-audit", "theorem %s: axioms %s" % (t, ax)))
+    if ok and tier == "thorough" and modules:
+        # independent re-check of the compiled theorems (and everything they import) by the toolchain's external checker
+        with C.Lock("lake"):
+            rc, out = C.run(["lake", "env", "leanchecker"] + list(modules), cwd=C.LEAN, timeout=3600)
+        coverage["leanchecker"] = "ok" if rc == 0 else "rejected"
+        if rc != 0:
+            breaks.append(("leanchecker", "leanchecker rejects the compiled modules %s: %s" % (modules, out[-600:])))
     forb = C.lean_grep_forbidden()
     if forb:
         breaks.append(("forbidden-construct", "\n".join(forb[:10])))
